@@ -17,15 +17,16 @@ TECH = "TLA+ spec tla/ClientLib.tla checked by TLC + conformance (schedules from
 # property -> model-checking configurations (cfg file, MaxEv quick, MaxEv thorough, deviations that
 # must yield a counterexample to this property, simulate depth)
 FAMILIES = {
-    "C17": dict(cfgs=[("MC_ClientLib_C17.cfg", 8, 9)], devs=["NoDupPublish", "PubrelDropped", "NilOnTerminate"],
+    "C17": dict(cfgs=[("MC_ClientLib_C17.cfg", 8, 9), ("MC_ClientLib_C17x.cfg", 8, 8, "all")], devs=["NoDupPublish", "PubrelDropped", "NilOnTerminate"],
                 devsigs=["C17/retransmit-no-dup", "C17/pubrel-unanswered", "C17/publish-result-vs-ack"],
                 devmax=7, quick_sample=900, sim=(60, 30)),
     "C27": dict(cfgs=[("MC_ClientLib_C27.cfg", 7, 8), ("MC_ClientLib_C27u.cfg", 9, 10, "all")], devs=[], quick_sample=250, sim=(60, 30),
                 repeat=1, repeat_thorough=3, vectors=True),
     "C28": dict(cfgs=[("MC_ClientLib_C28.cfg", 5, 6), ("MC_ClientLib_C28ka.cfg", 5, 6)], devs=["KaSync", "NilOnTerminate"],
                 devsigs=["C28/goroutines-after-end"],
-                devcfg="MC_ClientLib_C28ka.cfg", quick_sample=900, sim=(60, 25)),
-    "C33": dict(cfgs=[("MC_ClientLib_C33.cfg", 7, 9), ("MC_ClientLib_C33b.cfg", 7, 8), ("MC_ClientLib_C33c.cfg", 7, 8)], devs=["KaSync"],
+                devcfg="MC_ClientLib_C28ka.cfg", quick_sample=2600, sim=(60, 25)),
+    "C33": dict(cfgs=[("MC_ClientLib_C33.cfg", 7, 9), ("MC_ClientLib_C33b.cfg", 7, 8), ("MC_ClientLib_C33c.cfg", 7, 8),
+                      ("MC_ClientLib_C33w.cfg", 10, 12, "all")], devs=["KaSync"],
                 devsigs=["C33/keepalive-ping-while-not-active"],
                 devcfg="MC_ClientLib_C33.cfg", quick_sample=900, sim=(60, 30)),
     "C16": dict(cfgs=[("MC_ClientLib_C16.cfg", 8, 9)], devs=["RegisterReject"], devsigs=["C16/register-retransmit-rejected"], devmax=6,
